@@ -1,0 +1,32 @@
+//go:build verif
+// +build verif
+
+// Package verifhook provides observation points for runtime verification.
+//
+// It is only active when built with the "verif" tag; otherwise Emit is an empty function.
+package verifhook
+
+import "sync/atomic"
+
+// Func receives hook events.
+type Func func(point string, kv ...interface{})
+
+var current atomic.Value // holds Func
+
+// Enabled tells whether hooks are compiled in.
+const Enabled = true
+
+// Set installs (or with nil, removes) the event receiver.
+func Set(f Func) {
+	if f == nil {
+		f = func(string, ...interface{}) {}
+	}
+	current.Store(f)
+}
+
+// Emit reports an event to the receiver, if any.
+func Emit(point string, kv ...interface{}) {
+	if f, ok := current.Load().(Func); ok && f != nil {
+		f(point, kv...)
+	}
+}
